@@ -1,9 +1,12 @@
 package props
 
 import (
+	"bytes"
 	"context"
+	"errors"
 	"fmt"
 	"net/http"
+	"net/http/httptest"
 	"strings"
 	"sync"
 
@@ -410,6 +413,160 @@ func C16(r *h.Run) {
 			_ = si
 		}
 	}
+	// Groups that are sub-slices of ONE slice of the caller's (stack[:k]..., stack[k:]...), with
+	// groups built elsewhere between them: the chain is still the flat concatenation, and the
+	// caller's slice is not written to
+	for k := 0; k < r.N(24, 200); k++ {
+		side := []string{"client_unary", "handler_unary", "client_stream", "handler_stream"}[k%4]
+		client := strings.HasPrefix(side, "client")
+		log := &evlog{}
+		n := 2 + rng.Intn(4)
+		stack := make([]connect.Interceptor, n)
+		for j := range stack {
+			stack[j] = &logIcpt{id: j + 1, log: log}
+		}
+		orig := append([]connect.Interceptor(nil), stack...)
+		var flat []int
+		var desc []string
+		var copts []connect.ClientOption
+		var hopts []connect.HandlerOption
+		add := func(o connect.Option) {
+			if client {
+				copts = append(copts, o)
+			} else {
+				hopts = append(hopts, o)
+			}
+		}
+		nextFresh := 100
+		for start := 0; start < n; {
+			end := start + 1 + rng.Intn(2)
+			if end > n {
+				end = n
+			}
+			add(connect.WithInterceptors(stack[start:end]...))
+			for j := start; j < end; j++ {
+				flat = append(flat, j+1)
+			}
+			desc = append(desc, fmt.Sprintf("WithInterceptors(stack[%d:%d]...)", start, end))
+			start = end
+			if start < n && rng.Intn(3) != 0 {
+				nextFresh++
+				add(connect.WithInterceptors(&logIcpt{id: nextFresh, log: log}))
+				flat = append(flat, nextFresh)
+				desc = append(desc, fmt.Sprintf("WithInterceptors(fresh %d)", nextFresh))
+			}
+		}
+		in := map[string]any{"side": side, "stack": fmt.Sprintf("a slice of %d interceptors 1..%d", n, n), "options": desc}
+		mux := http.NewServeMux()
+		mux.Handle("/verif.Svc/Unary", connect.NewUnaryHandler("/verif.Svc/Unary",
+			func(_ context.Context, req *connect.Request[bv]) (*connect.Response[bv], error) {
+				return connect.NewResponse(&bv{Value: req.Msg.Value}), nil
+			}, hopts...))
+		mux.Handle("/verif.Svc/Stream", connect.NewClientStreamHandler("/verif.Svc/Stream",
+			func(_ context.Context, s *connect.ClientStream[bv]) (*connect.Response[bv], error) {
+				for s.Receive() {
+				}
+				return connect.NewResponse(&bv{}), s.Err()
+			}, hopts...))
+		var callErr error
+		p := safely(func() {
+			if strings.HasSuffix(side, "unary") {
+				c := connect.NewClient[bv, bv](&h.LocalClient{Handler: mux}, "http://verif.local/verif.Svc/Unary", copts...)
+				_, callErr = c.CallUnary(context.Background(), connect.NewRequest(&bv{Value: []byte("x")}))
+			} else {
+				c := connect.NewClient[bv, bv](&h.LocalClient{Handler: mux}, "http://verif.local/verif.Svc/Stream", copts...)
+				st := c.CallClientStream(context.Background())
+				callErr = st.Send(&bv{Value: []byte("a")})
+				if callErr == nil {
+					_, callErr = st.CloseAndReceive()
+				}
+			}
+		})
+		r.Eval("caller_slices", fmt.Sprint(side, desc))
+		if p != nil || callErr != nil {
+			r.Fail(h.Failure{Key: "interceptors/panic", Family: "caller_slices", What: fmt.Sprint("panic or failed call: ", p, callErr), Input: in})
+			continue
+		}
+		enter := filterLog(log.ev, "enter")
+		r.Sample("caller_slices", map[string]any{"in": in, "enter_order": enter})
+		if !intsEq(enter, flat) {
+			r.Fail(h.Failure{Key: "interceptors/order", Family: "caller_slices", What: "groups taken as sub-slices of one caller-owned slice: the chain is not the flat concatenation in declaration order, each interceptor once", Input: in, Expected: flat, Actual: enter})
+		}
+		for j := range stack {
+			if stack[j] != orig[j] {
+				r.Fail(h.Failure{Key: "interceptors/caller-slice-written", Family: "caller_slices", What: fmt.Sprintf("building the client / handler overwrote element %d of the caller's slice", j), Input: in})
+				break
+			}
+		}
+	}
+
+	// WithRecover is one more interceptor in the declared list: it recovers panics of what is
+	// declared AFTER it (inside it), not of what is declared before it (outside it)
+	for _, stream := range []bool{false, true} {
+		for n := 2; n <= 4; n++ {
+			for rpos := 0; rpos < n; rpos++ {
+				for ppos := 0; ppos <= n; ppos++ { // ppos == n: the handler function itself panics
+					if ppos == rpos {
+						continue
+					}
+					handled := 0
+					var hopts []connect.HandlerOption
+					var desc []string
+					for j := 0; j < n; j++ {
+						switch j {
+						case rpos:
+							hopts = append(hopts, connect.WithRecover(func(context.Context, connect.Spec, http.Header, any) error {
+								handled++
+								return connect.NewError(connect.CodeDataLoss, errors.New("recovered"))
+							}))
+							desc = append(desc, "WithRecover")
+						case ppos:
+							hopts = append(hopts, connect.WithInterceptors(panicIcpt{}))
+							desc = append(desc, "WithInterceptors(panics)")
+						default:
+							hopts = append(hopts, connect.WithInterceptors(&logIcpt{id: j + 1, log: &evlog{}}))
+							desc = append(desc, "WithInterceptors(plain)")
+						}
+					}
+					var handler *connect.Handler
+					if stream {
+						handler = connect.NewClientStreamHandler("/verif.Svc/M", func(_ context.Context, s *connect.ClientStream[bv]) (*connect.Response[bv], error) {
+							if ppos == n {
+								panic("handler function panics")
+							}
+							for s.Receive() {
+							}
+							return connect.NewResponse(&bv{}), nil
+						}, hopts...)
+					} else {
+						handler = connect.NewUnaryHandler("/verif.Svc/M", func(_ context.Context, req *connect.Request[bv]) (*connect.Response[bv], error) {
+							if ppos == n {
+								panic("handler function panics")
+							}
+							return connect.NewResponse(&bv{}), nil
+						}, hopts...)
+					}
+					body := []byte{}
+					ct := "application/proto"
+					if stream {
+						body = h.Frame(0, nil)
+						ct = "application/connect+proto"
+					}
+					req := httptest.NewRequest(http.MethodPost, "/verif.Svc/M", bytes.NewReader(body))
+					req.Header.Set("Content-Type", ct)
+					escaped := safely(func() { handler.ServeHTTP(httptest.NewRecorder(), req) })
+					in := map[string]any{"side": map[bool]string{false: "handler_unary", true: "handler_stream"}[stream], "options_in_declaration_order": desc, "handler_function_panics": ppos == n}
+					r.Eval("recover_position", fmt.Sprint(stream, n, rpos, ppos))
+					wantRecovered := ppos > rpos
+					if wantRecovered != (handled == 1 && escaped == nil) || (!wantRecovered && (handled != 0 || escaped == nil)) {
+						r.Fail(h.Failure{Key: "interceptors/recover-position", Family: "recover_position", What: "WithRecover does not sit at its declared position in the chain (it recovers exactly the panics of what is declared after it)", Input: in,
+							Expected: map[string]any{"recovered": wantRecovered}, Actual: map[string]any{"recover_handler_calls": handled, "panic_escaped_ServeHTTP": escaped != nil}})
+					}
+				}
+			}
+		}
+	}
+
 	sides := []string{"client_unary", "client_stream", "handler_unary", "handler_stream"}
 	// exhaustive small space: n <= maxN, every nil mask (n<=3), every composition into consecutive groups
 	maxN := r.N(4, 5)
@@ -464,4 +621,19 @@ func C16(r *h.Run) {
 		forest := genForest(rng, ids, 4, true)
 		runOne(sides[i%4], forest)
 	}
+}
+
+// panicIcpt panics when the call passes through it.
+type panicIcpt struct{}
+
+func (panicIcpt) WrapUnary(connect.UnaryFunc) connect.UnaryFunc {
+	return func(context.Context, connect.AnyRequest) (connect.AnyResponse, error) {
+		panic("interceptor panics")
+	}
+}
+func (panicIcpt) WrapStreamingClient(next connect.StreamingClientFunc) connect.StreamingClientFunc {
+	return next
+}
+func (panicIcpt) WrapStreamingHandler(connect.StreamingHandlerFunc) connect.StreamingHandlerFunc {
+	return func(context.Context, connect.StreamingHandlerConn) error { panic("interceptor panics") }
 }
